@@ -11,7 +11,7 @@ import time
 from fibertree import Fiber, Tensor, Payload
 
 from mc import bfs, core
-from mc.obs import hidden_globals, rawtree, rawfull, rank_index_view, content, unbox
+from mc.obs import hidden_globals, hidden_tensor, rawtree, rawfull, rank_index_view, content, unbox
 from mc.univ import mktree, tree_content, RANK_IDS
 
 LEVEL = "model_checking"
@@ -356,7 +356,7 @@ def key(S):
     return (rawfull(T.getRoot()), rank_index_view(T),
             tuple(pt for pt, _ in S.handles),
             tuple(_stored_at(T, pt) is h for pt, h in S.handles),
-            tuple(sorted(S.model.items())), hidden_globals())
+            tuple(sorted(S.model.items())), hidden_globals(), hidden_tensor(T))
 
 
 # ---------------------------------------------------------------------------
